@@ -63,6 +63,24 @@ type FileWrapper interface {
 	rotateCurrent()
 }
 
+// slotZeroer is implemented by the file wrappers that can clear slot records with one plain positioned write.
+type slotZeroer interface {
+	// ZeroSlots overwrites the slot records [slotIdx, endSlotIdx) with zero bytes and forgets what is cached for them.
+	ZeroSlots(slotIdx int, endSlotIdx int) error
+}
+
+// zeroSlots clears the slot records [slotIdx, endSlotIdx) of an entry file. WriteSlice is the fallback for wrappers
+// without ZeroSlots: it prepends a 4-byte length, so the buffer is 4 bytes shorter than the range.
+func zeroSlots(fw FileWrapper, slotIdx int, endSlotIdx int) error {
+	if endSlotIdx <= slotIdx {
+		return nil
+	}
+	if z, ok := fw.(slotZeroer); ok {
+		return z.ZeroSlots(slotIdx, endSlotIdx)
+	}
+	return fw.WriteSlice(slotIdx, endSlotIdx, int64(entrySize*slotIdx), make([]byte, entrySize*(endSlotIdx-slotIdx)-unit32Size), false, true)
+}
+
 // FileWrap represents a file and includes both the buffer to the data
 // and the file descriptor.
 type FileWrap struct {
@@ -301,6 +319,16 @@ func (fw *FileWrap) WriteSlice(slotIdx int, endSlotIdx int, offset int64, dat []
 	}
 
 	return errors.Wrapf(err, "seek unreachable file:%s", fw.Name())
+}
+
+// ZeroSlots overwrites the slot records [slotIdx, endSlotIdx) with zero bytes: one positioned write without the length
+// prefix that WriteSlice adds, so nothing outside the range is touched and no half-cleared slot can be left behind.
+func (fw *FileWrap) ZeroSlots(slotIdx int, endSlotIdx int) error {
+	if endSlotIdx <= slotIdx {
+		return nil
+	}
+	_, err := fw.WriteAt(slotIdx, int64(slotIdx*entrySize), make([]byte, (endSlotIdx-slotIdx)*entrySize), false)
+	return err
 }
 
 func (fw *FileWrap) ReadSlice(slotIdx int, offset int64, isMeta bool) []byte {
